@@ -30,6 +30,7 @@ int vp_opt_tx_cost = 0;        /* ms of monotonic time a transmit takes (blockin
 int vp_opt_hello_cost = 0;     /* ms the send_hello callback of the tick takes */
 int vp_opt_clock_tick = 0;     /* ms the clock moves on every read (the repository's unit-test port does this with 1 ms) */
 int vp_opt_pad = 0;
+int vp_opt_sloppy = 0, vp_opt_fail_style = 0, vp_opt_empty_ok = 0;
 int vp_fail_rc = -1;            /* what a failing int-returning getter returns: the core's convention is 0 = success */
 int vp_silent = 0;
 void (*vp_send_hook)(vp_iface *ifc, const uint8_t *frame, size_t len) = NULL;
@@ -350,8 +351,16 @@ static vp_blob blob_dup_ledger(const vp_blob *b) {
 
 int lltd_port_get_icon_image(void **out_data, size_t *out_size) {
     if (!out_data || !out_size) return vp_fail_rc;
+    if (vp_glob.icon.len == 0 && vp_opt_empty_ok && !(vp_glob.failmask & VPF_ICON)) {
+        /* a platform whose icon file exists but is empty: success, a real buffer, size 0 */
+        void *p = lltd_port_malloc(1);
+        if (!p) { *out_data = NULL; *out_size = 0; return vp_fail_rc; }
+        *out_data = p; *out_size = 0;
+        return 0;
+    }
     if ((vp_glob.failmask & VPF_ICON) || vp_glob.icon.len == 0) {
-        *out_data = NULL; *out_size = 0;
+        if (vp_opt_fail_style) { *out_data = NULL; *out_size = vp_glob.icon.len ? vp_glob.icon.len : 300; }   /* size stored, then the allocation failed */
+        else { *out_data = NULL; *out_size = 0; }
         return vp_fail_rc;
     }
     vp_blob r = blob_dup_ledger(&vp_glob.icon);
@@ -363,7 +372,8 @@ int lltd_port_get_icon_image(void **out_data, size_t *out_size) {
 int lltd_port_get_friendly_name(void **out_data, size_t *out_size) {
     if (!out_data || !out_size) return vp_fail_rc;
     if ((vp_glob.failmask & VPF_FNAME) || vp_glob.fname.len == 0) {
-        *out_data = NULL; *out_size = 0;
+        if (vp_opt_fail_style) { *out_data = NULL; *out_size = vp_glob.fname.len ? vp_glob.fname.len : 24; }   /* as os/darwin does: size first, then malloc */
+        else { *out_data = NULL; *out_size = 0; }
         return vp_fail_rc;
     }
     vp_blob r = blob_dup_ledger(&vp_glob.fname);
@@ -372,21 +382,26 @@ int lltd_port_get_friendly_name(void **out_data, size_t *out_size) {
     return 0;
 }
 
-static size_t name_out(const vp_blob *b, void *dst, size_t dst_len, int conv) {
+static size_t name_out(const vp_blob *b, void *dst, size_t dst_len, int conv, int may_fill) {
     if (!dst || dst_len == 0) return 0;
     size_t n = b->len < dst_len ? b->len : dst_len;
+    if (vp_opt_sloppy && may_fill) {
+        /* a getter that copies a driver's fixed-width field whole: the window is filled to its end, the length returned is
+         * that of the string */
+        for (size_t i = 0; i < dst_len; i++) ((uint8_t *)dst)[i] = (uint8_t)(0xC1 + (i * 7 & 0x3f));
+    }
     if (n) memcpy(dst, b->p, n);
     return conv ? b->len : n;
 }
 
 size_t lltd_port_get_hostname(void *dst, size_t dst_len) {
     if (vp_glob.failmask & VPF_HOSTNAME) return 0;
-    return name_out(&vp_glob.hostname, dst, dst_len, vp_glob.name_conv);
+    return name_out(&vp_glob.hostname, dst, dst_len, vp_glob.name_conv, 1);
 }
 
 size_t lltd_port_get_support_url(void *dst, size_t dst_len) {
     if (vp_glob.failmask & VPF_URL) return 0;
-    return name_out(&vp_glob.url, dst, dst_len, vp_glob.name_conv);
+    return name_out(&vp_glob.url, dst, dst_len, vp_glob.name_conv, 1);
 }
 
 int lltd_port_get_upnp_uuid(uint8_t out_uuid[16]) {
@@ -397,7 +412,7 @@ int lltd_port_get_upnp_uuid(uint8_t out_uuid[16]) {
 
 size_t lltd_port_get_hw_id(void *dst, size_t dst_len) {
     if (vp_glob.failmask & VPF_HWID) return 0;
-    return name_out(&vp_glob.hwid, dst, dst_len, vp_glob.name_conv);
+    return name_out(&vp_glob.hwid, dst, dst_len, vp_glob.name_conv, 0);      /* the core finds its end by the terminator */
 }
 
 int lltd_port_get_mac_address(void *ctx, ethernet_address_t *out) {
@@ -448,7 +463,7 @@ int lltd_port_get_bssid(void *ctx, uint8_t out[6]) {
 
 size_t lltd_port_get_ssid(void *ctx, void *dst, size_t dst_len) {
     if (!ctx || !IFC(ctx)->wifi_on || IFAIL(ctx, VPF_SSID)) return 0;
-    return name_out(&IFC(ctx)->ssid, dst, dst_len, IFC(ctx)->name_conv);
+    return name_out(&IFC(ctx)->ssid, dst, dst_len, IFC(ctx)->name_conv, 1);
 }
 
 int lltd_port_get_wifi_max_rate_0_5mbps(void *ctx, uint16_t *out) {
